@@ -28,6 +28,35 @@ OriginOk(tag, o) ==
     [] tag.c = "syn"  -> o.f = ""
     [] OTHER -> FALSE
 
+\* C03 for blank bytes.  Which blanks survive around dropped directives is a layout detail the
+\* property does not fix, so the specification does not predict WHICH survive, only where a
+\* surviving one must point: a blank run either is a copy (the source bytes at the reported
+\* offset are the same characters, and the offset lies between the origins of the neighbouring
+\* copied tokens of that file), or it belongs to a macro expansion (a neighbouring token is an
+\* expansion token of the same definition file); it may lack an origin only next to synthesised text.
+FText(env, f) ==
+  LET S == {i \in 1..Len(env.ftext) : env.ftext[i].n = f} IN
+  IF S = {} THEN "" ELSE env.ftext[CHOOSE i \in S : TRUE].text
+BlankOk(env, exp, toks, b) ==
+  LET pt == IF b.prev > 0 /\ b.prev <= Len(exp) THEN exp[b.prev].o ELSE NoTag
+      nt == IF b.next > 0 /\ b.next <= Len(exp) THEN exp[b.next].o ELSE NoTag
+      len == Len(b.t)
+      ft == FText(env, b.f)
+      copied == /\ b.off + len <= Len(ft)
+                /\ SubSeq(ft, b.off + 1, b.off + len) = b.t
+                /\ (pt.c = "copy" /\ pt.f = b.f => pt.off + Len(toks[b.prev].t) <= b.off)
+                /\ (nt.c = "copy" /\ nt.f = b.f => b.off + len <= nt.off)
+      nearExp == (pt.c = "exp" /\ pt.f = b.f) \/ (nt.c = "exp" /\ nt.f = b.f)
+      nearSyn == pt.c = "syn" \/ nt.c = "syn"
+      \* an expansion that consists of blanks only has no neighbouring expansion token: it must then
+      \* point into the body of a `define written in that file
+      its == FileItems(env, b.f)
+      inBody == \E i \in 1..Len(its) :
+                  /\ its[i].k = "def" /\ its[i].b # <<>>
+                  /\ its[i].off + its[i].b[1].boff <= b.off
+                  /\ (i < Len(its) => b.off <= its[i + 1].off)
+  IN IF b.f = "" THEN nearSyn ELSE (copied \/ nearExp \/ inBody)
+
 ErrOf(st) == IF st.status = "err" THEN st.err ELSE <<>>
 
 ObsDefSet(obs) == {obs.defs[i] : i \in 1..Len(obs.defs)}
@@ -50,6 +79,12 @@ JudgeRun(env, obs, checkOrigins) ==
           \o (IF checkOrigins /\ firstBad = {} /\ orgBad # {} THEN
                  LET i == CHOOSE i \in orgBad : \A j \in orgBad : i <= j
                  IN <<"origin differs at", ToString(i), exp[i].t, ToString(exp[i].o), ToString(obs.toks[i])>> ELSE <<>>)
+          \o (IF checkOrigins /\ firstBad = {} /\ Len(obs.toks) = n THEN
+                 LET bb == {i \in 1..Len(obs.blanks) : ~BlankOk(env, exp, obs.toks, obs.blanks[i])} IN
+                 IF bb = {} THEN <<>>
+                 ELSE LET i == CHOOSE i \in bb : \A j \in bb : i <= j
+                      IN <<"blank run has a wrong origin", ToString(obs.blanks[i])>>
+              ELSE <<>>)
           \o (IF DefTable(st) # ObsDefSet(obs) THEN <<"define table differs", ToString(DefTable(st) \ ObsDefSet(obs)), ToString(ObsDefSet(obs) \ DefTable(st))>> ELSE <<>>)
 
 FiredDev(env) == Run(env).dev
